@@ -114,28 +114,28 @@ def handlers : List (String × Handler) := [
       let kernels := outRows.map (kernelOutputs cfg sm sg)
       pure s!"{showRats2 deltas} {showRats2 kernels} {showRats2 (deltas.map (derivedKeypoints cfg))} {showRats2 (kernels.map (layerKernel cfg))}"
     | _ => none),
-  -- alt.cdflayer <relu6> <mean|none> <f> <U> <K> <W> <monotone 0|1> <raw scale> <kernel I*K rows> <xs rows>
+  -- alt.cdflayer <relu6> <mean|none> <f (Python int: may be 0 / negative)> <U> <K> <W> <monotone 0|1> <raw scale> <kernel I*K rows> <xs rows>
   --   -> per example the flattened output | ERR
   ("alt.cdflayer", fun args => match args with
     | [a, red, f, u, k, w, mono, raw, kern, xs] => do
-      let a ← parseAct a; let red ← parseRed red; let f ← f.toNat?; let u ← u.toNat?; let k ← k.toNat?
+      let a ← parseAct a; let red ← parseRed red; let f ← f.toInt?; let u ← u.toNat?; let k ← k.toNat?
       let w ← w.toNat?; let mono ← parseBool mono; let raw ← parseRats raw; let kern ← parseRats2 kern
       let xs ← parseRats2 xs
       let kernel := unflat3 k kern
-      let r := batchM (fun x => (layerCall a (fun _ => 0) red f u (constrainedScale mono raw) kernel k w x).map List.flatten) xs
+      let r := batchM (fun x => (layerCallZ a (fun _ => 0) red f u (constrainedScale mono raw) kernel k w x).map List.flatten) xs
       pure (showExcept showRats2 r)
     | _ => none),
   -- alt.cdffn <relu6> <mean|none> <f> <U> <K> <W> <sI sK sW | none none none> <scaling flat|_> <loc I*K rows> <x>
   --   (one example per line: location parameters are per example)
   ("alt.cdffn", fun args => match args with
     | [a, red, f, u, k, w, si, sk, sw, sc, loc, x] => do
-      let a ← parseAct a; let red ← parseRed red; let f ← f.toNat?; let u ← u.toNat?; let k ← k.toNat?
+      let a ← parseAct a; let red ← parseRed red; let f ← f.toInt?; let u ← u.toNat?; let k ← k.toNat?
       let w ← w.toNat?; let loc ← parseRats2 loc; let x ← parseRats x
       let scaling ← if si = "none" then some none else do
         let si ← si.toNat?; let sk ← sk.toNat?; let sw ← sw.toNat?; let sc ← parseRats sc
         let _ := si
         pure (some (Tfl.Driver.Kfl.unflat sk (Tfl.Driver.Kfl.chunk sw sc.length sc)))
-      let r := (cdfFn a (fun _ => 0) red f u scaling (unflat3 k loc) k w x).map List.flatten
+      let r := (cdfFnZ a (fun _ => 0) red f u scaling (unflat3 k loc) k w x).map List.flatten
       pure (showExcept showRats r)
     | _ => none),
   -- alt.par <x rows> <n> {<keypoints> <cyclic> <kernel columns>}*n -> output rows | ERR
